@@ -48,6 +48,7 @@ type semGenOpts struct {
 	MaxStats            int
 	NoFuncInTargetIndex bool
 	NoFuncInForBounds   bool
+	GQualified          bool
 }
 
 // genWorkspace generates 1..MaxFiles files (simple layout: one statement per line, single spaces,
@@ -64,6 +65,7 @@ func genWorkspace(t *rapid.T, o semGenOpts) Workspace {
 		cfg.NoSameNameInit = o.NoSameName
 		cfg.NoFuncInTargetIndex = o.NoFuncInTargetIndex
 		cfg.NoFuncInForBounds = o.NoFuncInForBounds
+		cfg.GQualified = o.GQualified
 		cfg.Globals = []string{"G1", "G2", "gfun", "Gtab"}
 		cfg.Builtins = builtinNames
 		cfg.Prefix = fmt.Sprintf("f%d", i)
